@@ -158,10 +158,13 @@ class ToolOps(StepOps):
             def const(v):
                 return isinstance(v, str) or (isinstance(v, tuple) and v[:1] == ("v",))
             if const(left) and const(right):
-                return (left == right) if op == "Eq" else (left != right)
+                # ("v", name, copy): equal values may be distinct objects — == looks at the name only
+                a_ = left[:2] if isinstance(left, tuple) else left
+                b_ = right[:2] if isinstance(right, tuple) else right
+                return (a_ == b_) if op == "Eq" else (a_ != b_)
         if r is UNKNOWN and op in ("Is", "IsNot"):
             def ident(v):
-                return isinstance(v, tuple) and v[:1] in (("GLOBAL",), ("item",), ("FN",), ("OBJ",)) or isinstance(v, str)
+                return isinstance(v, tuple) and v[:1] in (("GLOBAL",), ("item",), ("FN",), ("OBJ",), ("v",)) or isinstance(v, str)
             if ident(left) and ident(right):
                 return (left == right) if op == "Is" else (left != right)
             if (left is None) != (right is None):
@@ -390,13 +393,14 @@ class ToolOps(StepOps):
 # ---------------------------------------------------------------------------------- oracle side
 class _Src:
     def __init__(self, values: List[Any]):
-        self.values, self.taken = list(values), 0
+        self.values, self.taken, self.ends = list(values), 0, 0
 
     def __iter__(self):
         return self
 
     def __next__(self):
         if self.taken >= len(self.values):
+            self.ends += 1
             raise StopIteration
         self.taken += 1
         return self.values[self.taken - 1]
@@ -414,7 +418,15 @@ def _observe(make, srcs: List[_Src], calls: List[Any]):
                 break
     except Exception as exc:  # noqa: BLE001  (the oracle's own outcome)
         end = ("raise", type(exc).__name__)
-    return ys, [s.taken for s in srcs], list(calls), end
+    return _Obs((ys, [s.taken for s in srcs], list(calls), end), [s.ends for s in srcs])
+
+
+class _Obs(tuple):
+    """an oracle observation that also knows how often each source was asked once it had nothing left"""
+    def __new__(cls, fields, ends):
+        self = super().__new__(cls, fields)
+        self.ends = list(ends)
+        return self
 
 
 def _observe_call(make, srcs: List[_Src], calls: List[Any]):
@@ -424,7 +436,7 @@ def _observe_call(make, srcs: List[_Src], calls: List[Any]):
         end: Any = "return"
     except Exception as exc:  # noqa: BLE001
         result, end = None, ("raise", type(exc).__name__)
-    return [], [s.taken for s in srcs], list(calls), end, result
+    return _Obs(([], [s.taken for s in srcs], list(calls), end, result), [s.ends for s in srcs])
 
 
 class _Sym:
@@ -826,17 +838,32 @@ def _cycle_cells():
         yield Cell(f"{n} items, first {LIMIT} results", [("IT", 0)], {}, {0: n}, oracle, limit=LIMIT)
 
 
+class _Val:
+    """a value of the oracle run that is equal to every other value of the same name, yet a distinct object"""
+    def __init__(self, sym):
+        self.sym = sym
+
+    def __eq__(self, other):
+        return isinstance(other, _Val) and other.sym[:2] == self.sym[:2]
+
+    def __hash__(self):
+        return hash(self.sym[:2])
+
+
 def _callable_iter_cells():
     for n in range(0, 4):
         for stop_at in range(0, n + 1):
-            values = [("v", i) for i in range(n)] + ["SENTINEL"]
-            values = values[:stop_at] + ["SENTINEL"] + values[stop_at:]
+            # the callable returns n values and an object *equal to* (not identical with) the sentinel in between
+            values = [("v", i, 0) for i in range(n)] + [("v", "S", 1)]
+            values = values[:stop_at] + [("v", "S", 1)] + values[stop_at:]
 
             def make_fn(values=values):
                 state = {"i": 0}
 
                 def fn(_a):
                     state["i"] += 1
+                    if state["i"] > len(values):
+                        return ("v", "more", state["i"])  # (asked again after the end: ever new values)
                     return values[state["i"] - 1]
                 return fn
 
@@ -847,10 +874,11 @@ def _callable_iter_cells():
                 def f():
                     calls.append(("F", ()))
                     state["i"] += 1
-                    return values[state["i"] - 1]
-                return _observe(lambda: iter(f, "SENTINEL"), [], calls)
-            yield Cell(f"callable returning {stop_at} values, then the sentinel", [("FN", "F"), "SENTINEL"], {}, {}, oracle,
-                       fns={"F": make_fn()})
+                    return _Val(values[state["i"] - 1])
+                ys, taken, calls_, end = _observe(lambda: iter(f, _Val(("v", "S", 0))), [], calls)
+                return [y.sym for y in ys], taken, calls_, end
+            yield Cell(f"callable returning {stop_at} values, then an object equal to the sentinel", [("FN", "F"), ("v", "S", 0)], {}, {},
+                       oracle, fns={"F": make_fn()})
 
 
 def _plain_iteration_cells():
@@ -899,7 +927,7 @@ def _expected(tool: str, cell: Cell):
     result = obs[4] if len(obs) > 4 else None
     if tool == "itertools.accumulate" and cell.lengths[0] == 0 and "initial" not in cell.kw:
         end = ("raise", "TypeError")
-    return ys, taken, calls, end, result
+    return ys, taken, calls, end, result, getattr(obs, "ends", None)
 
 
 def _bind(ctx, u, ops, cell: Cell) -> Optional[Dict[str, Any]]:
@@ -942,11 +970,14 @@ def _norm(v):
     return v
 
 
-ALL = ("yields", "items taken", "calls", "end", "result")
+ALL = ("yields", "items taken", "calls", "end", "result", "end-of-source detections")
 #: which parts of the trace a property speaks about (a rule never demands more than its property states)
 ITEMS_AND_END = ("yields", "end", "result")          # C01: same items, same objects, same order, same end
 RESULT_AND_CALLS = ("end", "result", "calls")        # C02: same value / exception; a default is never passed to key
-CONSUMPTION = ("yields", "items taken", "calls", "end", "result")  # C05, C06: the whole interleaved trace
+CONSUMPTION = ("yields", "items taken", "calls", "end", "result", "end-of-source detections")  # C05: the whole trace
+#: C06 speaks of what is delivered before a failing use and of no use after it; how often an exhausted source is
+#: asked is C05's clause ("end-of-source detections"), not C06's
+USES = ("yields", "items taken", "calls", "end", "result")
 
 
 def aggregate_tables(ctx, rid: str, fields=RESULT_AND_CALLS) -> None:
@@ -1034,9 +1065,10 @@ def _tables(ctx, rid: str, tools, kind: str, counter: str, fields=ALL, make_ops=
                 exc = oc.raised
                 end = ("raise", exc[1] if isinstance(exc, tuple) and exc[:1] == ("exc",) else str(exc))
             result = _norm(ops.resolve(oc.returned, oc.env)) if kind == "coroutine" and end == "return" else None
-            got = ([_norm(y) for y in ys], taken, calls, end, result)
+            ends = [sum(1 for e in tr if e[:2] == ("poll", k)) - n for k, n in zip(sorted(cell.lengths), taken)]
+            got = ([_norm(y) for y in ys], taken, calls, end, result, ends if want[5] is not None else None)
             exp = ([_norm(y) for y in want[0]], list(want[1]), [(c[0], _norm(c[1])) for c in want[2]], want[3],
-                   _norm(want[4]) if kind == "coroutine" and want[3] == "return" else None)
+                   _norm(want[4]) if kind == "coroutine" and want[3] == "return" else None, want[5])
             keep = [i for i, label in enumerate(ALL) if label in fields]
             if [got[i] for i in keep] != [exp[i] for i in keep]:
                 bad += 1
